@@ -11,7 +11,7 @@
                                 partition the balancer chose).
    last_attempt_seen s m o    : the last produce attempt that carried m was seen by the client
                                 as o (None = acknowledged). *)
-From Coq Require Import List NArith Bool Arith.
+From Coq Require Import List NArith ZArith Bool Arith.
 From KV Require Import Lib.LTS Model.Writer Proofs.WriterStmts Proofs.WriterC01a Proofs.WriterC01b Proofs.WriterHolds Proofs.WriterHolds2 Proofs.WriterHolds1.
 Import ListNotations.
 
@@ -124,6 +124,31 @@ Theorem C01_rejected_sends_nothing_holds_on_runs :
     rejected_sends_nothing_holds (s_calls s) (s_journal s) = true.
 Proof. exact rejected_sends_nothing_holds_runs. Qed.
 Print Assumptions C01_rejected_sends_nothing_holds_on_runs.
+
+(* The broker's verdict on a produce request is "ok | error code" for ANY int16 code: only
+   code 0 is success (Client.Produce: ProduceResponse.Error = makeError(code, ...), nil exactly
+   for 0), every other code — negative ones like UNKNOWN_SERVER_ERROR = -1 included — is a
+   failure the client sees, and nothing was appended.  The transition system takes an arbitrary
+   [e : err] in [RejectedCode e]; no theorem above depends on the sign or size of a code.
+   (The mapping itself is compared on all 65536 codes on every run: ops prr / pr.) *)
+Theorem C01_error_code_sign_independent : forall c : Z,
+  (code_err c = None <-> c = 0%Z) /\
+  (r_seen (reaction_of_code c) = None <-> c = 0%Z) /\
+  (c <> 0%Z -> r_applied (reaction_of_code c) = false /\ exists e, r_seen (reaction_of_code c) = Some e).
+Proof. exact code_verdict_sign_independent. Qed.
+Print Assumptions C01_error_code_sign_independent.
+
+(* a batch answered with UNKNOWN_SERVER_ERROR (-1) on its last allowed attempt: WriteErrors, not nil *)
+Example C01_negative_code_is_an_error :
+  exists s, run (step (mkCfg 2 100 1 false (Some 0%N) (fun _ => false))) init
+              [Call 1 [mkMsg 1 None 30 0; mkMsg 2 None 30 0] None; Assign 0; Get 0;
+               Attempt 0 (reaction_of_code (-1)); Finish 0; Timer 0 0; Return 0] = Some s /\
+            map c_ph (s_calls s) = [CReturned (RWriteErrors [Some 65535%N; Some 65535%N])] /\
+            s_log s = [] /\ map snd (s_compl s) = [Some 65535%N].
+Proof.
+  eexists. split; [vm_compute; reflexivity|]. split; [vm_compute; reflexivity|].
+  split; vm_compute; reflexivity.
+Qed.
 
 (* ---- non-vacuity: two partitions, BatchSize 1, MaxAttempts 2, error 7 retriable, 3 permanent.
    Call 0 = [m1 -> partition 0; m2 -> partition 1]: m1 loses its acknowledgement and is retried
